@@ -463,7 +463,73 @@ def o_set_constellation_argument(case):
     return None
 
 
-ORACLES = {'close.samples': o_close_samples, 'close.bpsk': o_close_bpsk, 'close.offsets': o_close_offsets,
+def _observable(m):
+    """what a user can see of a modulator without sending anything through it"""
+    return {'M': int(m.M), 'K': float(m.K), 'symbols': np.array(m.symbols, dtype=complex).tolist(),
+            'name': type(m).__name__}
+
+
+ODD_TABLES = [
+    ('duplicates-same-size', lambda n: [1 + 0j] * 2 + [np.exp(2j * np.pi * k / n) for k in range(2, n)] if n >= 2 else [1 + 0j]),
+    ('duplicates-smaller', lambda n: [1j, 1j, -1 + 0j, 1 + 0j][:max(2, n // 2)] if n > 2 else [1 + 0j]),
+    ('duplicates-larger', lambda n: [0.5 + 0j, 0.5 + 0j] + [np.exp(2j * np.pi * k / (2 * n)) for k in range(2 * n - 2)]),
+    ('distinct-other-size', lambda n: [np.exp(2j * np.pi * k / (2 * n)) for k in range(2 * n)]),
+    ('single-point', lambda n: [1 + 0j]),
+    ('all-equal', lambda n: [0.5 - 0.5j] * n),
+]
+
+
+def o_set_constellation_odd(case):
+    """R4 for setConstellation on an EXISTING object of every class: whatever table it is given, the call either
+    raises and leaves the object exactly as it was (M, K, table, behaviour), or installs the table consistently
+    (M = number of points, K = log2 M, modulate(i) = table[i], indexes >= M refused).  Which of the two
+    happens is the library's choice; a call that raises after it changed something is what must not happen"""
+    m = build(case)
+    n = int(m.M)
+    for name, mk in ODD_TABLES:
+        tab = np.array(mk(n), dtype=complex)
+        before = _observable(m)
+        try:
+            m.setConstellation(tab)
+            raised = None
+        except Exception as e:
+            raised = type(e).__name__
+        after = _observable(m)
+        cls = 'setConstellation:%s:%s' % (name, case['kind'])
+        if raised is not None:
+            if after != before:
+                diff = [k for k in before if before[k] != after[k]]
+                return ('rejected-call-changed-the-object:' + cls,
+                        '%s raised, but %s changed: M %r -> %r, table size %d' % (raised, diff, before['M'], after['M'],
+                                                                                 len(after['symbols'])))
+        else:
+            if after['M'] != tab.size or len(after['symbols']) != tab.size:
+                return 'accepted-table-not-installed:' + cls, 'M=%r, %d symbols, table of %d' % (after['M'], len(after['symbols']), tab.size)
+            if tab.size >= 1 and abs(after['K'] - math.log2(tab.size)) > 1e-12:
+                return 'accepted-table-wrong-K:' + cls, 'K=%r for %d points' % (after['K'], tab.size)
+        # in either case the object must still be usable and self-consistent
+        M = int(m.M)
+        sym = np.asarray(m.symbols, dtype=complex)
+        if sym.size != M:
+            return 'M-differs-from-table-size:' + cls, 'M=%d, %d symbols (raised=%s)' % (M, sym.size, raised)
+        if type(m).__name__ != 'BPSK':
+            try:
+                out = np.asarray(m.modulate(np.arange(M)))
+            except Exception as e:
+                return 'valid-indexes-refused:' + cls, '%s after the call (raised=%s)' % (type(e).__name__, raised)
+            if not np.array_equal(out, sym):
+                return 'modulate-not-the-table:' + cls, 'after the call (raised=%s)' % raised
+            try:
+                m.modulate(np.array([M]))
+                return 'index-M-accepted:' + cls, 'modulate([%d]) emitted a symbol (raised=%s)' % (M, raised)
+            except ValueError:
+                pass
+            except Exception as e:
+                return 'index-M-wrong-exception:' + cls, type(e).__name__
+    return None
+
+
+ORACLES = {'setConstellation.odd-tables': o_set_constellation_odd, 'close.samples': o_close_samples, 'close.bpsk': o_close_bpsk, 'close.offsets': o_close_offsets,
            'reuse': o_reuse, 'roles': o_roles, 'setConstellation.argument': o_set_constellation_argument}
 
 
@@ -600,6 +666,11 @@ def oracles(ctx, deep=None, stream='oracles'):
             ('roles', kind, M), 'oracle:R16:two-roles')
     # the generic Modulator keeps the caller's array: known finding C01:setConstellation-keeps-argument
     b.run_oracle(ctx, 'setConstellation.argument', ALIAS_CASE, key=('alias',))
+    for kind, M in (('PSK', 8), ('QPSK', 4), ('QAM', 16), ('BPSK', 2), ('PSK', 4)):
+        for generic in (False, True):
+            b.run_oracle(ctx, 'setConstellation.odd-tables', {'kind': kind, 'M': M, 'phase': 0.0, 'generic': generic},
+                         key=('odd', kind, M, generic))
+            ctx.branch('oracle:R4:setConstellation-odd-tables')
     ctx.branch('oracle:R16:setConstellation-argument')
 
 
